@@ -7,7 +7,11 @@ that the containment proof rests on.
  * `_secure_path(path_tuple)`                              -> shape: the two refusals (in either order), then
                                                               `'/'.join(path_tuple)` returned (directly or through a local)
  * `static_view.get_resource_name`                         -> `_secure_path` is applied to the tuple, `None` raises HTTPNotFound,
-                                                              and every later use goes through the checked value
+                                                              and every later use goes through the checked value;
+                                                              without use_subpath the tuple is `traversal_path_info` of the RAW
+                                                              `request.environ` PATH_INFO (decoded once), not of `request.path_info`
+ * `static_view.find_resource_path`                        -> only regular files: `isfile(name)` /
+                                                              `resource_exists(pkg, name) and not resource_isdir(pkg, name)`
 
 Anything that does not have the expected shape is emitted as the string "unknown: …" (and the tables as empty
 lists), which makes the `decide`d obligations in Props/C16.lean fail.  Local variable names are not significant.
@@ -178,7 +182,68 @@ def facts(src_root):
                 if isinstance(g, ast.FunctionDef) and g.name == 'get_resource_name':
                     why = _call_site(g)
     out['callsite_shape'] = 'unknown: ' + why if why else 'ok'
+    why1 = why2 = 'static_view not found'
+    for n in tree.body:
+        if isinstance(n, ast.ClassDef) and n.name == 'static_view':
+            why1, why2 = 'get_resource_name not found', 'find_resource_path not found'
+            for g in n.body:
+                if isinstance(g, ast.FunctionDef) and g.name == 'get_resource_name':
+                    why1 = _decode_once(g)
+                if isinstance(g, ast.FunctionDef) and g.name == 'find_resource_path':
+                    why2 = _regular_file(g)
+    out['decodeonce_shape'] = 'unknown: ' + why1 if why1 else 'ok'
+    out['regularfile_shape'] = 'unknown: ' + why2 if why2 else 'ok'
     return out
+
+
+def _decode_once(g):
+    """if self.use_subpath: t = request.subpath / else: t = traversal_path_info(<raw PATH_INFO of request.environ>)"""
+    if len(g.args.args) != 2:
+        return 'get_resource_name has another signature'
+    req = g.args.args[1].arg
+    raw = {"%s.environ.get('PATH_INFO', '/')" % req, "%s.environ['PATH_INFO']" % req, "%s.environ.get('PATH_INFO', '')" % req}
+    for st in g.body:
+        if isinstance(st, ast.If) and ast.unparse(st.test) == 'self.use_subpath':
+            if not (len(st.body) == 1 and isinstance(st.body[0], ast.Assign) and ast.unparse(st.body[0].value) == '%s.subpath' % req):
+                return 'the use_subpath branch does not take request.subpath'
+            if not (len(st.orelse) == 1 and isinstance(st.orelse[0], ast.Assign) and isinstance(st.orelse[0].value, ast.Call)
+                    and ast.unparse(st.orelse[0].value.func) == 'traversal_path_info' and len(st.orelse[0].value.args) == 1):
+                return 'the other branch is not traversal_path_info(<one argument>)'
+            if ast.unparse(st.body[0].targets[0]) != ast.unparse(st.orelse[0].targets[0]):
+                return 'the two branches assign different names'
+            arg = ast.unparse(st.orelse[0].value.args[0])
+            if arg not in raw:
+                return 'traversal_path_info is applied to %s, not to the raw PATH_INFO of request.environ' % arg
+            return None
+    return 'no `if self.use_subpath:` in get_resource_name'
+
+
+def _regular_file(g):
+    if len(g.args.args) != 2:
+        return 'find_resource_path has another signature'
+    nm = g.args.args[1].arg
+    body = [s for s in g.body if not (isinstance(s, ast.Expr) and isinstance(s.value, ast.Constant))]
+    if not (len(body) == 1 and isinstance(body[0], ast.If) and ast.unparse(body[0].test) == 'self.package_name'):
+        return 'find_resource_path is not `if self.package_name: … elif …`'
+    top = body[0]
+    ex, isd = 'resource_exists(self.package_name, %s)' % nm, 'resource_isdir(self.package_name, %s)' % nm
+
+    def both(t):
+        if not (isinstance(t, ast.BoolOp) and isinstance(t.op, ast.And) and len(t.values) == 2):
+            return False
+        pos = [v for v in t.values if not isinstance(v, ast.UnaryOp)]
+        neg = [v for v in t.values if isinstance(v, ast.UnaryOp) and isinstance(v.op, ast.Not)]
+        return len(pos) == 1 and len(neg) == 1 and ast.unparse(pos[0]) == ex and ast.unparse(neg[0].operand) == isd
+    if not (len(top.body) == 1 and isinstance(top.body[0], ast.If) and not top.body[0].orelse
+            and both(top.body[0].test)
+            and len(top.body[0].body) == 1 and isinstance(top.body[0].body[0], ast.Return)
+            and ast.unparse(top.body[0].body[0].value) == 'resource_filename(self.package_name, %s)' % nm):
+        return 'package branch is not `if resource_exists(…) and not resource_isdir(…): return resource_filename(…)`'
+    if not (len(top.orelse) == 1 and isinstance(top.orelse[0], ast.If) and not top.orelse[0].orelse
+            and ast.unparse(top.orelse[0].test) == 'isfile(%s)' % nm and len(top.orelse[0].body) == 1
+            and isinstance(top.orelse[0].body[0], ast.Return) and ast.unparse(top.orelse[0].body[0].value) == nm):
+        return 'filesystem branch is not `elif isfile(name): return name`'
+    return None
 
 
 def _call_site(g):
@@ -222,7 +287,7 @@ def generate(src_root):
              '', '/-- the set `_has_insecure_pathelement` intersects with -/',
              'def insecureElements : List (List Char) := [%s]' % ', '.join(_lean_text(s) for s in sorted(f['elems'])),
              '']
-    for k in ('chars_shape', 'elems_shape', 'contains_shape', 'secure_shape', 'callsite_shape'):
+    for k in ('chars_shape', 'elems_shape', 'contains_shape', 'secure_shape', 'callsite_shape', 'decodeonce_shape', 'regularfile_shape'):
         lines.append('def %s : String := %s' % (k.replace('_shape', 'Shape'), '"' + f[k].replace('\\', '\\\\').replace('"', '\\"') + '"'))
     lines += ['', 'end Pyr.Static.Gen', '']
     return {'PyramidModel/Gen/C16.lean': '\n'.join(lines)}
